@@ -24,7 +24,7 @@ T = {
     "C03": ("fault_enumeration", "generated call histories x scripted per-message transport faults (client-side socket shim), execution counters on the server object",
             "Histories of calls on one proxy with a generated fault per message (lost, late, cut at offset k, reset before/after processing, stale replay, altered sequence number; retries 0..2; sequence wrap-around). Oracle: own reply or CommunicationError, execution counts, recovery.",
             "fault wrapper models a transport faithfully (late replies stay in the stream, dead connections stay dead)", "4/C03"),
-    "C04": ("exploration", "Hypothesis-generated hostile payload trees encoded directly with each serializer; closed-world type oracle + audit hook; enumerated tag / nesting / shared-object / escaped-key sweeps",
+    "C04": ("exploration", "Hypothesis-generated hostile payload trees encoded directly with each serializer; closed-world type oracle + audit hook; enumerated tag / nesting / shared-object / escaped-key / hand-written msgpack extension sweeps, a slice of them decoded by an interpreter running with -O",
             "Payload trees with class-tagged dicts at any depth and tags from a hostile grammar are encoded directly with serpent/json/marshal/msgpack and decoded on both paths; the result graph may contain only plain data and the closed class set, tags must be accepted exactly by an independent predicate, and sys.addaudithook must see no import/exec/open/socket/process event.",
             "trusts the independent tag predicate and CPython audit events", "4/C04"),
     "C05": ("fault_enumeration", "structure-aware hostile byte streams (every header field, length mismatch, every truncation, garbage) interleaved with witness clients on live daemons; enumerated hostile CONTENT in well-formed messages against a daemon in its own process",
@@ -39,13 +39,13 @@ T = {
     "C08": ("exploration", "generated first messages x validator behaviours x pipelined follow-ups sent by a raw socket peer using the reference codec; execution log",
             "A raw peer sends every kind of first message (valid/malformed, any serializer id, any handshake payload, known/unknown object) with INVOKE messages pipelined behind it, against scripted validators on both server types; nothing may be logged by any registered object unless the handshake was accepted, and the failure reply must be CONNECTFAIL + reason + close.",
             "reads replies with the reference codec; tolerates a TCP reset instead of CONNECTFAIL only when bytes were pipelined", "4/C08"),
-    "C09": ("exploration", "generated connection/call histories against a reference model + deterministic line-level scheduler for racing first calls",
+    "C09": ("exploration", "generated connection/call/re-registration/daemon-shutdown histories against a reference model + deterministic line-level scheduler for racing first calls",
             "Histories of connections opening/calling/closing on single/session/percall classes with truthy, falsy and custom-equality instance shapes and failing creators are compared with a reference model of instance identity; racing first calls on a single-mode class are explored under a harness-owned scheduler (all <=2-preemption schedules, then random).",
             "scheduler preempts at source-line granularity only", "4/C09"),
-    "C10": ("exploration", "model-based generated histories (open/next/close/disconnect/reconnect/housekeeping - also while an item is being produced - /clock advance) with a virtual clock on live daemons",
+    "C10": ("exploration", "model-based generated histories (open/next/close/disconnect/reconnect/housekeeping - also while an item is being produced - /clock advance) with a virtual clock on live daemons; daemon-internal stream-table operations of 2-3 server threads under a deterministic line-level scheduler (all schedules with <= 1-2 preemptions), oracle = facts common to all sequential orders",
             "Interleaved operations on up to 4 streams from 2 proxies with generated item sequences and lifetime/linger settings; server time is a harness-controlled clock; each next() must give the model's item/StopIteration/exception, forgotten streams must error, and the daemon's stream table must equal the model at quiescence.",
             "virtual clock replaces Pyro5.server.time in the test process", "4/C10"),
-    "C11": ("exploration", "generated call lists (also behind an earlier batch on the same BatchProxy, and 1000-2500 calls long) executed as a batch on a live daemon and sequentially on a local twin (differential)",
+    "C11": ("exploration", "generated call lists (also behind an earlier batch on the same BatchProxy, and 1000-2500 calls long) executed as a batch on a live daemon, one by one over the wire on an identical remote object, and sequentially on a local twin (two differentials)",
             "Generated call sequences over a stateful object run as a (oneway) batch through each serializer and one by one on an identical local object; result prefixes, failure position/class and final object state must agree.",
             "local twin is the sequential reference", "4/C11"),
     "C12": ("exploration", "generated multi-client histories with per-call unique annotation tags; leak oracle on every reply; both server types",
@@ -66,7 +66,7 @@ T = {
     "C17": ("fault_enumeration", "exhaustive enumeration of scripted socket behaviours for small sizes + Hypothesis beyond; step-by-step stream model",
             "A scripted fake socket delivers k bytes / raises each retryable errno / a fatal errno / timeout / EOF per call; receive_data and send_data are compared with a model of the stream for all scripts up to a bound (exhaustive) and generated ones beyond, with and without MSG_WAITALL, blocking and timeout mode.",
             "fake socket is sound: EOF is absorbing, deliveries >= 1 byte", "4/C17"),
-    "C18": ("exploration", "deterministic line-level scheduler over Pool/Worker: exhaustive <=2-preemption + generated schedules; live refusal-reply layer",
+    "C18": ("exploration", "deterministic line-level scheduler over Pool/Worker: exhaustive <=2-preemption + generated schedules; multi-phase arrive/end histories (with thread-start faults) against an occupancy model, incl. every 1-preemption schedule of a history catalogue; live refusal-reply layer",
             "The pool is driven under a harness-owned scheduler (submit/finish/close racing) and checked for exactly-once execution or justified refusal, worker bound, idle/busy disjointness, no deadlock and worker exit after close; a live layer checks that a refused connection receives CONNECTFAIL naming the pool.",
             "scheduler granularity = source line; threading primitives of svr_threads are replaced by scheduler-aware ones", "4/C18"),
     "C19": ("exploration", "grammar-based Hypothesis generation of URI strings and near-misses; parse/print round-trip, fixed point, hash/eq laws, reference parse for the clean sub-grammar, serializer/proxy/name-server paths; atheris campaign on the parser (thorough)",
